@@ -753,6 +753,8 @@ class Domain:
             if idx not in v.f:
                 raise PyExc(self.make_exc("KeyError", (idx,)))
             return v.f[idx]
+        if isinstance(v, LibMethod) and v.name == "ndarray.flat":
+            return self.lib_call("arr:getflat", [v.obj, idx], {})
         if isinstance(v, LibFn):
             return LibFn(v.name + "[]")         # typing.Deque[...] etc. in annotations-as-values
         raise Unsupported(f"subscript of {type(v).__name__} at {self.run.site}")
